@@ -240,6 +240,21 @@ def check_single(res, spec, precision, what='geom'):
                           f'parse(serialize(P, precision={prec2})) != P for the parsed {spec["shape"]}/{spec["frame"]}: {ddiff[:3]} '
                           f'meta {dict(P[0].meta)} -> {dict(P2[0].meta) if len(P2) == 1 else None}; visual {dict(P[0].visual)} -> {dict(P2[0].visual) if len(P2) == 1 else None}',
                           text, text2)
+    # a parsed region is a region like any other: what is written after an edit is its CURRENT state
+    if spec['shape'] == 'text':
+        try:
+            res.transitions += 1
+            Pe, _ = _parse(text)
+            Pe[0].text = 'renamed after parsing'
+            text4, _ = _ser([Pe[0]], precision=precision)
+            P4, _ = _parse(text4)
+            back = P4[0].text if len(P4) == 1 else None
+        except Exception as exc:
+            res.violation(ID, 'fixed_point_raises', case, f'serialising a parsed text region after editing its text raised {type(exc).__name__}: {exc}')
+            back = 'renamed after parsing'
+        if back != 'renamed after parsing':
+            res.violation(ID, 'edit_after_parse_lost', case, f"a parsed text region whose text was changed to 'renamed after parsing' is written and read "
+                                                            f'back with text {back!r}', 'renamed after parsing', back)
     # non-trivial: the precision really rounded something
     changed = any(abs(a - b) > 0 for a, b in zip(d0['sizes'], d1['sizes'])) or any(
         abs(a - c) > 0 or abs(b - d) > 0 for (a, b), (c, d) in zip(d0['coords'], d1['coords']))
